@@ -117,6 +117,7 @@ def run_one(ck, prog):
     # of the configured steps, the status report (write) or exit. An extra step - closing "the originals" after dup2, say - changes what the
     # new program inherits (Stdio::RawFd(1) for stderr: the close takes the child's stdout away)
     from ..engine.cfg import is_raw_syscall
+    from .futexflavour import nr_name
     ALLOWED_EXTRA = ("rusl::unistd::write::write", "rusl::process::exit::exit")
 
     def kernel_step(c):
@@ -133,6 +134,25 @@ def run_one(ck, prog):
                 if c not in STEP_ORDER and c not in ALLOWED_EXTRA:
                     extra.append((c2, bb, c))
     ck.floor("C13.2", "kernel calls on the child's side", n_kernel, 9)
+    # each of these wrappers asks the kernel once: a wrapper that goes round again on some error (ETXTBSY from execve, say) keeps the
+    # forked child spinning in the caller's program instead of reporting the error - spawn then never returns
+    looping = []
+    wrappers = set()
+    for c2, blocks in [(ctx, region)] + [(prog.ctx(h), None) for _, h in helpers]:
+        for bb, t in c2.cfg.calls():
+            c = t.get("resolved") or t.get("callee")
+            if (blocks is None or bb in blocks) and kernel_step(c):
+                wrappers.add(c)
+    for w in sorted(wrappers):
+        for f in sorted(x for x in cg.reach([w]) if x in prog.fns and x.startswith("rusl::")):
+            cw = prog.ctx(prog.fns[f])
+            for bb, t in cw.cfg.calls(lambda t: is_raw_syscall(t.get("callee"))):
+                a0 = cw.args(bb)
+                if cw.cfg.in_cycle(bb) and not (a0 and nr_name(a0[0]) in ("DUP2", "DUP3")):     # dup's EBUSY retry is the documented exception, checked by C09.5
+                    looping.append((w, f, cw.site(bb)))
+    ck.floor("C13.2", "child-side wrappers", len(wrappers), 6)
+    ck.ob("C13.2", "child-step-asks-the-kernel-once", not looping, fn=looping[0][1] if looping else DO_SPAWN, site=looping[0][2] if looping else None,
+          detail=f"`{looping[0][0]}` (used by the forked child) repeats its system call in a loop: while the condition lasts the child neither execs nor reports, and spawn blocks on the status pipe" if looping else f"{len(wrappers)} wrappers")
     for c2, bb, c in extra:
         ck.ob("C13.2", f"child-does-only-what-was-configured|{c.split('::')[-1]}", False, fn=c2.path, site=c2.site(bb),
               detail=f"the forked child calls `{c}`, which is neither a configured step (dup2, chdir, setuid, setgid, setpgid, hooks, execve) nor the status report / exit")
